@@ -71,6 +71,27 @@ def gen(repo):
         if not re.search(pat, hid):
             raise TranslateError("handleIncomingData: %s check has an unexpected shape" % what)
 
+    # the skeleton of the extraction loop: every statement of the `while (true)` pipelining loop that mentions the working
+    # buffer or one of the offsets derived from it, in source order.  What each offset is relative to (the header terminator is
+    # searched from offset 0 of a buffer that is trimmed after every request, the header section / request / chunk scan start
+    # are taken from that same origin, the session buffer is the trimmed rest) is what the model's `extractOne`/`drainLoop`
+    # assume; Props/C15.lean pins this list against the model's (`gen_extract_loop`), so any other shape breaks a named
+    # obligation - and a loop that cannot be located at all is a TranslateError.
+    m0 = re.search(r"dataStr\s*=\s*it->second\.buffer\s*;", hid)
+    w0 = re.search(r"while\s*\(\s*true\s*\)\s*\{", hid[m0.end():]) if m0 else None
+    if not m0 or not w0:
+        raise TranslateError("handleIncomingData: pipelining loop `while (true)` after `dataStr = it->second.buffer` not found")
+    lb = m0.end() + w0.end() - 1
+    loop = hid[lb + 1:cxxscan.match_brace(hid, lb)]
+    idents = re.compile(r"\b(dataStr|headerEnd|requestEndPos|totalExpectedLength|headerSection|requestData)\b")
+    loop_skel = []
+    for stmt in re.split(r"[;{}]", loop):
+        st = re.sub(r"\s+", " ", stmt).strip()
+        if st and idents.search(st):
+            loop_skel.append(st)
+    if len(loop_skel) < 8 or not any("find(" in x for x in loop_skel):
+        raise TranslateError("handleIncomingData: extraction loop has an unexpected shape: %r" % loop_skel[:4])
+
     # ---------------------------------------------------------------- message parser
     mt = re.search(r"static\s+constexpr\s+std::size_t\s+MAX_REQUEST_TARGET_SIZE\s*=\s*([^;]+);", m)
     if not mt:
@@ -107,6 +128,9 @@ def gen(repo):
     t += "/-- `Config` defaults: maxResponseBytes, jsonConfig.maxPayloadSize (effectiveCap = max of the two) -/\n"
     t += "def clientDefaultMaxResponseBytes : Nat := %d\ndef clientDefaultJsonMaxPayload : Nat := %d\n" % (max_resp, json_max)
     t += "/-- `HttpServer::SessionInfo` limits -/\ndef serverMaxBufferSize : Nat := %d\ndef serverMaxHeaderSize : Nat := %d\ndef serverMaxBodySize : Nat := %d\n" % (max_buf, max_hdr, max_body)
+    t += "/-- `handleIncomingData`: the statements of the pipelining loop that mention the working buffer `dataStr` or an offset\n"
+    t += "derived from it, in source order (what every offset is relative to) -/\n"
+    t += "def serverExtractLoop : List String := %s\n" % _lean_str_list(loop_skel)
     t += "/-- `HttpRequest::MAX_REQUEST_TARGET_SIZE` -/\ndef maxRequestTargetSize : Nat := %d\n" % max_target
     t += "/-- `parseMethod` table; index = `enum class HttpMethod` value -/\ndef methods : List String := %s\n" % _lean_str_list(by_value)
     t += "/-- `kTcharPunct` of `isHttpToken` -/\ndef tcharPunct : String := \"%s\"\n" % tc.group(1)
